@@ -299,68 +299,79 @@ def slices(d, parent_kind="NONE", out=None):
 
 
 def run_docs(chunk):
-    """chunk: list of (doc id, text, want_model).  Returns per doc and mode: harness-checked facts
-    and the dump; for want_model docs also the plain-mode tree in the machine's vocabulary."""
+    """chunk: list of (doc id, text, want_model).  Returns records
+         ("res", doc id, mode, error, flags, shape-kinds>=2)   one per parse
+         ("tree", key, pk, json, doc id, mode)                 one per distinct whole tree / slice of this chunk
+         ("model", doc id, json)                               plain-mode tree in the machine's vocabulary
+    Dumping, cutting big trees into slices and de-duplication happen here, in the worker."""
     common.use_repo()
-    res = []
-    models = []
+    out = []
+    seen = set()
     with Scratch("c01-") as d:
         ctx = pt.new_ctx(d, templates=True)
         try:
             for did, text, want_model in chunk:
                 for mode in pt.MODES:
                     root, err, flags = pt.parse(ctx, text, mode, limit=PARSE_LIMIT_S)
-                    if err == "TIMEOUT":
-                        res.append((did, mode, err, flags, None, None))
-                        break                      # not judged; the other modes would be as slow
                     if root is None:
-                        res.append((did, mode, err, flags, None, None))
+                        out.append(("res", did, mode, err, flags, False))
+                        if err == "TIMEOUT":
+                            break                  # not judged; the other modes would be as slow
                         continue
                     if want_model and mode == "plain":
-                        models.append((did, "model", None, None, None, json.dumps(pt.dump_model(root))))
+                        out.append(("model", did, json.dumps(pt.dump_model(root))))
                     # (the parse itself ran under the interpreter's default recursion limit;
                     # only the harness-side dumping of deep trees gets more room)
                     sys.setrecursionlimit(20000)
                     try:
                         dump = pt.dump_wf(root)
-                        res.append((did, mode, None, flags, pt.shape_key(dump), dump))
+                        key = pt.shape_key(dump)
+                        out.append(("res", did, mode, None, flags, False))
+                        if key in seen:
+                            continue
+                        seen.add(key)
+                        if len(key) <= SLICE_LIMIT and depth_of(dump) <= DEPTH_LIMIT:
+                            h = "W" + hashlib.sha1(key.encode()).hexdigest()[:20] + ("+" if len(pt.kinds_in(dump)) >= 2 else "-")
+                            out.append(("tree", h, "NONE", json.dumps(dump, separators=(",", ":")), did, mode))
+                        else:
+                            for pk, sl in slices(dump):
+                                k2 = pk + "/" + pt.shape_key(sl)
+                                if k2 in seen:
+                                    continue
+                                seen.add(k2)
+                                h = "S" + hashlib.sha1(k2.encode()).hexdigest()[:20]
+                                out.append(("tree", h, pk, json.dumps(sl, separators=(",", ":")), did, mode))
                     finally:
                         sys.setrecursionlimit(RECLIMIT)
         finally:
             ctx.close_db_conn()
-    sys.setrecursionlimit(20000)
-    # de-duplicate inside the worker to keep the pipe small
-    seen = set()
-    slim = []
-    for did, mode, err, flags, key, dump in res:
-        if key is not None and key in seen:
-            dump = None
-        elif key is not None:
-            seen.add(key)
-        slim.append((did, mode, err, flags, key, json.dumps(dump) if dump is not None else None))
-    return slim + models
+    return out
 
 
-def validate_trees(trees):
-    """TLC evaluates Faults on every tree of the batch; -> (TLCResult, {index: faults})."""
+def validate_trees(entries):
+    """entries: list of (pk, tree-json).  TLC evaluates Faults on every entry; -> (TLCResult, {index: faults})."""
     with Scratch("c01t-") as d:
         tf = d / "trees.json"
-        tf.write_text(json.dumps(trees))
+        with open(tf, "w") as f:
+            f.write("[")
+            for n, (pk, tj) in enumerate(entries):
+                f.write(("," if n else "") + '{"pk":%s,"t":%s}' % (json.dumps(pk), tj))
+            f.write("]")
         cfg = "SPECIFICATION Spec\nINVARIANT Verdict\nCHECK_DEADLOCK FALSE\n"
         r = tlc("Trace_WikiTree", "t.cfg", cfg_text=cfg, workers=1, env={"TRACE_FILE": str(tf)}, timeout=3000)
     v = r.tagged("VERDICT")
-    if not v or v[0]["consumed"] != len(trees):
+    if not v or v[0]["consumed"] != len(entries):
         raise common.TLCError("tree validation incomplete")
     return r, {b["i"] - 1: b["faults"] for b in v[0]["bad"]}
 
 
-def validate_parallel(o, trees, label, nparts=12):
-    if not trees:
+def validate_parallel(o, entries, label, nparts=12):
+    if not entries:
         return {}
-    nparts = max(1, min(nparts, len(trees) // 200 + 1))
-    parts = [list(range(k, len(trees), nparts)) for k in range(nparts)]
+    nparts = max(1, min(nparts, len(entries) // 2000 + 1))
+    parts = [list(range(k, len(entries), nparts)) for k in range(nparts)]
     with ThreadPoolExecutor(nparts) as ex:
-        outs = list(ex.map(lambda p: validate_trees([trees[j] for j in p]), parts))
+        outs = list(ex.map(lambda p: validate_trees([entries[j] for j in p]), parts))
     bad = {}
     for p, (r, b) in zip(parts, outs):
         o.add_tlc(label, r)
@@ -369,22 +380,20 @@ def validate_parallel(o, trees, label, nparts=12):
     return bad
 
 
-def check_batch(o: Outcome, docs, origin, want_model=frozenset(), predicted=None):
+def check_batch(o: Outcome, docs, origin, want_model=frozenset()):
     """docs: list of texts.  Runs the real parser three ways on each, checks the harness-side
     observables, has TLC validate the distinct tree shapes.  Returns {doc id: machine-vocabulary
-    dump of the plain-mode tree} for the ids in want_model.  predicted: {doc id: as-is machine
-    observation} (G), used to say whether the as-is model explains a fault."""
+    dump of the plain-mode tree} for the ids in want_model."""
     models = {}
-    whole, whole_src = {}, {}
-    slice_keys, slice_src = {}, {}
+    trees = {}          # hash key -> (pk, json, doc id, mode); compact strings only
     # bounded memory: the real parser runs over the inputs in batches; the distinct tree shapes
     # of all batches are validated together afterwards
     for start in range(0, len(docs), BATCH):
         items = [(i, docs[i], i in want_model) for i in range(start, min(start + BATCH, len(docs)))]
         results = pmap(run_docs, items)
-        collect(o, docs, origin, results, models, whole, whole_src, slice_keys, slice_src)
+        collect(o, docs, origin, results, models, trees)
         del results
-    return finish_batch(o, docs, origin, models, whole, whole_src, slice_keys, slice_src)
+    return finish_batch(o, docs, origin, models, trees)
 
 
 PER_CLASS_CAP = 200
@@ -401,13 +410,17 @@ def capped(o, cls) -> bool:
     return False
 
 
-def collect(o, docs, origin, results, models, whole, whole_src, slice_keys, slice_src):
-    sys.setrecursionlimit(20000)
-    for did, mode, err, flags, key, dump in results:
-        dump = json.loads(dump) if dump is not None else None
-        if mode == "model":
-            models[did] = dump
+def collect(o, docs, origin, results, models, trees):
+    for rec in results:
+        if rec[0] == "model":
+            models[rec[1]] = json.loads(rec[2])
             continue
+        if rec[0] == "tree":
+            _, h, pk, tj, did, mode = rec
+            if h not in trees:
+                trees[h] = (pk, tj, did, mode)
+            continue
+        _, did, mode, err, flags, _ = rec
         o.evaluations += 1
         text = docs[did]
         if err == "TIMEOUT":
@@ -431,39 +444,24 @@ def collect(o, docs, origin, results, models, whole, whole_src, slice_keys, slic
                     o.classify(case, why, [DEV_PRE], cls="pre_parse-left-set")
             elif not capped(o, "state-left-behind"):
                 o.violation(case, why, cls="state-left-behind")
-        if dump is None:
-            continue
-        if len(key) <= SLICE_LIMIT and depth_of(dump) <= DEPTH_LIMIT:
-            if key not in whole:
-                whole[key] = dump
-                whole_src[key] = (text, mode)
-        else:
-            for pk, sl in slices(dump):
-                k2 = pk + "/" + pt.shape_key(sl)
-                if k2 not in slice_keys:
-                    slice_keys[k2] = (pk, sl)
-                    slice_src[k2] = (text, mode)
 
 
-def finish_batch(o, docs, origin, models, whole, whole_src, slice_keys, slice_src):
+def finish_batch(o, docs, origin, models, trees):
     o.traces += len(docs)
-    # whole trees
-    keys = list(whole)
-    bad = validate_parallel(o, [{"pk": "NONE", "t": whole[k]} for k in keys], "Trace_WikiTree")
+    keys = list(trees)
+    bad = validate_parallel(o, [(trees[k][0], trees[k][1]) for k in keys], "Trace_WikiTree")
+    nwhole = nslice = 0
     for k in keys:
-        if len(pt.kinds_in(whole[k])) >= 2:
-            o.shape(hashlib.sha1(k.encode()).hexdigest()[:16])
+        if k[0] == "W":
+            nwhole += 1
+            if k.endswith("+"):
+                o.shape(k)
+        else:
+            nslice += 1
     for j, faults in bad.items():
-        text, mode = whole_src[keys[j]]
-        report_faults(o, origin, text, mode, faults, whole[keys[j]])
-    # slices of big trees: validated in the position they had (pk = kind of the real parent)
-    skeys = list(slice_keys)
-    strees = [{"pk": slice_keys[k][0], "t": slice_keys[k][1]} for k in skeys]
-    bad = validate_parallel(o, strees, "Trace_WikiTree(slices)")
-    for j, faults in bad.items():
-        text, mode = slice_src[skeys[j]]
-        report_faults(o, origin + "/slice", text, mode, faults, slice_keys[skeys[j]][1])
-    o.extra.setdefault("distinct_tree_shapes", {})[origin] = {"whole": len(keys), "slices": len(skeys)}
+        pk, tj, did, mode = trees[keys[j]]
+        report_faults(o, origin + ("" if pk == "NONE" else "/slice"), docs[did], mode, faults, tj)
+    o.extra.setdefault("distinct_tree_shapes", {})[origin] = {"whole": nwhole, "slices": nslice}
     return models
 
 
@@ -474,7 +472,7 @@ FAULT_DEVIATION = {"LEVEL-args-not-[title]": DEV_TITLE}
 def report_faults(o, origin, text, mode, faults, dump):
     faults = sorted(faults)
     case = {"origin": origin, "mode": mode, "text": text[:3000], "faults": faults,
-            "tree": json.dumps(dump)[:1500]}
+            "tree": dump[:1500]}
     why = f"tree returned by parse(..., {mode}) is not well-formed: {', '.join(faults)}"
     if capped(o, "wf:" + ",".join(faults)):
         return
@@ -652,7 +650,7 @@ def replay(path: str) -> int:
     print("error:", err, " flags:", flags)
     if root is None:
         return 1
-    _, bad = validate_trees([{"pk": "NONE", "t": pt.dump_wf(root)}])
+    _, bad = validate_trees([("NONE", json.dumps(pt.dump_wf(root)))])
     print("faults now:", bad.get(0, []))
     return 0 if not bad and flags == pt.CLEAN_FLAGS else 1
 
@@ -671,7 +669,7 @@ def selftest() -> int:
     bad2["ch"].append({"k": "LIST_ITEM", "sarg": pt.S("*"), "largs": [], "attrs": [], "ch": [], "hasdef": False, "def": []})
     bad3 = json.loads(json.dumps(good))
     bad3["ch"][0]["largs"][0].append({"s": pt.S("x" + chr(0x102041))})   # a cookie character
-    _, bad = validate_trees([{"pk": "NONE", "t": t} for t in (good, bad1, bad2, bad3)])
+    _, bad = validate_trees([("NONE", json.dumps(t)) for t in (good, bad1, bad2, bad3)])
     print("faults:", bad)
     ok = (0 not in bad and "empty-string-child" in bad.get(1, []) and "LIST_ITEM-not-under-LIST" in bad.get(2, [])
           and "placeholder-char" in bad.get(3, []))
